@@ -452,7 +452,7 @@ public:
    /// Is \p k a valid DataKey of an element in DataSet?
    bool has(const DataKey& k) const
    {
-      return theitem[k.idx].info >= 0;
+      return k.idx >= 0 && k.idx < size() && theitem[k.idx].info >= 0;
    }
 
    /// Is \p n a valid number of an element in DataSet?
